@@ -28,6 +28,7 @@ type c29Op struct {
 	Parent int    `json:"p,omitempty"`  // fork: which of the most recent stored headers
 	Signer int    `json:"s,omitempty"`  // which allowed validator seals
 	InTurn bool   `json:"it,omitempty"` // prefer the in-turn validator when allowed
+	Weak   bool   `json:"w,omitempty"`  // prefer an out-of-turn validator (lowest difficulty), overrides InTurn
 	Epoch  []int  `json:"ep,omitempty"` // key indices of a new validator list carried in extra-data
 	Mut    string `json:"m,omitempty"`
 	Arg    int    `json:"a,omitempty"`
@@ -56,7 +57,7 @@ func genKeyList(t *rapid.T, label string, lo, hi int) []int {
 	return rapid.SliceOfNDistinct(rapid.IntRange(0, nSealerKeys-1), lo, hi, rapid.ID[int]).Draw(t, label)
 }
 
-func genC29Op(t *rapid.T) c29Op {
+func genC29Op(t *rapid.T, weakMain bool) c29Op {
 	op := c29Op{}
 	switch k := rapid.IntRange(0, 99).Draw(t, "kind"); {
 	case k < 54:
@@ -76,6 +77,10 @@ func genC29Op(t *rapid.T) c29Op {
 	}
 	op.Signer = rapid.IntRange(0, 8).Draw(t, "signer")
 	op.InTurn = rapid.IntRange(0, 2).Draw(t, "inturn") > 0
+	if weakMain && op.Kind == "ext" {
+		// cases with a weak main chain: heavier, shorter side chains then force reorganisations to a lower height
+		op.Weak = rapid.IntRange(0, 3).Draw(t, "weak") > 0
+	}
 	if rapid.IntRange(0, 7).Draw(t, "epoch?") == 0 || op.Mut == "epoch-force" {
 		op.Epoch = genKeyList(t, "epoch", 1, 9)
 	}
@@ -102,7 +107,8 @@ func genC29(t *rapid.T) c29Case {
 	if rapid.IntRange(0, 2).Draw(t, "prev=list") == 0 {
 		c.Prev = append([]int{}, c.List...)
 	}
-	c.Ops = rapid.SliceOfN(rapid.Custom(genC29Op), 6, ev.Scale(44, 110)).Draw(t, "ops")
+	weakMain := rapid.IntRange(0, 2).Draw(t, "weakMain") == 0
+	c.Ops = rapid.SliceOfN(rapid.Custom(func(t *rapid.T) c29Op { return genC29Op(t, weakMain) }), 6, ev.Scale(44, 110)).Draw(t, "ops")
 	return c
 }
 
@@ -127,6 +133,16 @@ func c29Flush() {
 
 func c29NotExercised() []string {
 	return []string{"polygon-bor: exercised only inside one sprint with the producer set of the trust-root snapshot (span changes / sprint boundaries need Heimdall span proofs and are not generated)"}
+}
+
+func turnMode(op c29Op) int {
+	switch {
+	case op.Weak:
+		return turnAvoid
+	case op.InTurn:
+		return turnPrefer
+	}
+	return turnAny
 }
 
 // opNode is one header produced by an op inside run.
@@ -193,7 +209,7 @@ func (m *chainModel) buildOp(op c29Op, tip *node) (*types.Header, string) {
 		epoch = addrList(clampList(op.Epoch))
 	}
 	root := crypto.Keccak256Hash([]byte("root"), p.hash[:], []byte{byte(op.Signer), byte(op.Arg)})
-	h, ki := m.goodChild(p, op.Signer, op.InTurn, epoch, root, op.Dt, op.Gas)
+	h, ki := m.goodChild(p, op.Signer, turnMode(op), epoch, root, op.Dt, op.Gas)
 	tag := ""
 	if epoch != nil {
 		tag = "+epoch"
